@@ -568,7 +568,9 @@ func inheritFresh(old, nv Value) {
 	switch o := old.(type) {
 	case SliceV:
 		if n, ok := nv.(SliceV); ok && n.R != nil {
-			if o.R == nil || o.R.fresh {
+			// (a slice without a modelled array counts as owned only if it has no capacity: a nil or empty slice;
+			// (*c)[:0] of a caller's []Packet has none modelled either but appending to it writes the caller's array)
+			if (o.R == nil && o.Cap != nil && o.Cap.C != nil && o.Cap.C.Sign() == 0) || (o.R != nil && o.R.fresh) {
 				n.R.fresh = true
 				n.R.input = false
 			}
